@@ -803,12 +803,18 @@ example : sourceExcerpt 3 1 2 1 5 = .ok () := by decide
 
 /-! ## ExecutionTimeout -/
 
-theorem timeoutDeadline_total (now limit : Int) (hn : 0 ≤ now ∧ now ≤ 4611686018427387903)
-    (hl : 0 ≤ limit ∧ limit ≤ 4611686018427387903) : timeoutDeadline now limit ≠ .panic := by
-  unfold timeoutDeadline; rw [ckI64_ok (by arith)]; simp
+theorem timeoutDeadline_total (now limit : Int) (hn : 0 ≤ now ∧ now ≤ 4611686018427387903) (hl : 0 ≤ limit) :
+    timeoutDeadline now limit ≠ .panic := by
+  unfold timeoutDeadline
+  split
+  · simp
+  · rw [ckI64_ok (by arith)]; simp
 
-/-- a host setting of `Duration::MAX` (not a script input) -/
-theorem timeoutDeadline_panic_witness : timeoutDeadline 100000 18446744073709551615 = .panic := by decide
+/-- before commit 2bba370 a host setting of `Duration::MAX` (not a script input) overflowed -/
+theorem timeoutDeadlineUnchecked_panic_witness :
+    timeoutDeadlineUnchecked 100000 18446744073709551615 = .panic := by decide
+
+example : timeoutDeadline 100000 18446744073709551615 = .ok 4295067295 := by decide
 
 /-- the instruction counter is only incremented below the interval -/
 theorem timeoutTick_total (since interval : Int) (hs : 0 ≤ since) (hi : inUsize interval) :
@@ -903,5 +909,180 @@ theorem peekRegister_total (len n : Int) (hl : inLen len) (hn : 0 ≤ n) (hg : n
   rw [ckUsize_ok (by arith)]; simp only [bind_ok]
   have : len - n - 1 < len := by omega
   simp [this]
+
+/-! ## the kernels after the proposed repairs (`Fx`, requests/C06-fix-*.diff)
+
+With no repair the generalised kernels are the kernels above (so every theorem above speaks about
+what the driver runs); with the repair they are total. -/
+
+theorem asBoundedRangeG_none (r : KRange) : asBoundedRangeG Fx.none r = asBoundedRange r := rfl
+theorem rangeSizeG_none (r : KRange) : rangeSizeG Fx.none r = rangeSize r := rfl
+theorem rangeContainsG_none (r : KRange) (n : Int) : rangeContainsG Fx.none r n = rangeContains r n := rfl
+theorem rangeIndicesG_none (r : KRange) (m : Int) : rangeIndicesG Fx.none r m = rangeIndices r m := rfl
+theorem rangeIntersectionG_none (a b : KRange) : rangeIntersectionG Fx.none a b = rangeIntersection a b := rfl
+theorem runIndexSeqRangeG_none (len : Int) (r : KRange) : runIndexSeqRangeG Fx.none len r = runIndexSeqRange len r := rfl
+theorem runIndexRangeNumG_none (r : KRange) (n : NumView) : runIndexRangeNumG Fx.none r n = runIndexRangeNum r n := rfl
+theorem indexAssignListRangeG_none (len : Int) (r : KRange) :
+    indexAssignListRangeG Fx.none len r = indexAssignListRange len r := rfl
+theorem runTempIndexRangeG_none (r : KRange) (i : Int) : runTempIndexRangeG Fx.none r i = runTempIndexRange r i := by
+  unfold runTempIndexRangeG runTempIndexRange
+  simp only [Fx.none, Bool.false_eq_true, ite_false]
+  rfl
+
+/-- fix-5: the range arm of `run_temp_index` is total as well -/
+theorem runTempIndexRange_fixed_total (fx : Fx) (hf : fx.range = true) (r : KRange) (index : Int) :
+    runTempIndexRangeG fx r index ≠ .panic := by
+  unfold runTempIndexRangeG
+  simp only [hf, ite_true]
+  split
+  · cases r.stop with
+    | none => simp
+    | some p =>
+      obtain ⟨e, incl⟩ := p
+      simp only
+      cases incl <;> simp only [Bool.false_eq_true, ite_false, ite_true, bind_ok]
+      · cases hc : rangeContainsG fx r (wrap64 (e + index)) with
+        | panic => exact absurd hc (rangeContains_fixed_total fx hf r _)
+        | err => simp
+        | ok c => simp
+      · cases hc : rangeContainsG fx r (wrap64 (min (e + 1) I64_MAX + index)) with
+        | panic => exact absurd hc (rangeContains_fixed_total fx hf r _)
+        | err => simp
+        | ok c => simp
+  · cases r.start with
+    | none => simp
+    | some s =>
+      simp only [bind_ok]
+      cases hc : rangeContainsG fx r (wrap64 (s + index)) with
+      | panic => exact absurd hc (rangeContains_fixed_total fx hf r _)
+      | err => simp
+      | ok c => simp
+theorem sizeHintG_none (c : Cursor) : sizeHintG Fx.none c = sizeHint c := rfl
+theorem absIntG_none (a : Int) : absIntG Fx.none a = absInt a := rfl
+theorem rangeExpandedG_none (s e n : Int) : rangeExpandedG Fx.none s e n = rangeExpanded s e n := rfl
+theorem runRemainderAssignG_none (a b : Int) :
+    runRemainderAssignG Fx.none a b = (runRemainderAssign a b).map' some := by
+  unfold runRemainderAssignG runRemainderAssign; simp [Fx.none]
+theorem shiftLeftG_none (a : Int) (b : NumView) : shiftLeftG Fx.none a b = shiftLeft a b := by
+  unfold shiftLeftG shiftLeft; simp [Fx.none]
+theorem shiftRightG_none (a : Int) (b : NumView) : shiftRightG Fx.none a b = shiftRight a b := by
+  unfold shiftRightG shiftRight; simp [Fx.none]
+
+/-- fix-5: with the saturating `+ 1`, `as_bounded_range` is total for every range -/
+theorem asBoundedRange_fixed_total (fx : Fx) (hf : fx.range = true) (r : KRange) :
+    ∃ s e, asBoundedRangeG fx r = .ok (s, e) ∧ s ≤ e := by
+  unfold asBoundedRangeG
+  obtain ⟨s, e, incl⟩ := r.triple
+  simp only [hf, ite_true]
+  cases incl
+  · exact ⟨s, max e s, by simp, by omega⟩
+  · exact ⟨s, max (min (e + 1) I64_MAX) s, by simp, by omega⟩
+
+/-- fix-5: … and so are `size` (with the wrapping subtraction), `contains`, `intersection` -/
+theorem rangeSize_fixed_total (fx : Fx) (hf : fx.range = true) (hs : fx.size = true) (r : KRange) :
+    rangeSizeG fx r ≠ .panic := by
+  obtain ⟨s, e, hok, _⟩ := asBoundedRange_fixed_total fx hf r
+  unfold rangeSizeG; split
+  · rw [hok]; simp [hs]
+  · simp
+
+theorem rangeContains_fixed_total (fx : Fx) (hf : fx.range = true) (r : KRange) (n : Int) :
+    rangeContainsG fx r n ≠ .panic := by
+  obtain ⟨s, e, hok, _⟩ := asBoundedRange_fixed_total fx hf r
+  unfold rangeContainsG; rw [hok]; simp
+
+theorem rangeIntersection_fixed_total (fx : Fx) (hf : fx.range = true) (a b : KRange) :
+    rangeIntersectionG fx a b ≠ .panic := by
+  obtain ⟨s1, e1, hok1, _⟩ := asBoundedRange_fixed_total fx hf a
+  obtain ⟨s2, e2, hok2, _⟩ := asBoundedRange_fixed_total fx hf b
+  unfold rangeIntersectionG; rw [hok1, hok2]; simp only [bind_ok]
+  split <;> simp
+
+/-- fix-5: `indices` yields a valid slice range for every range and length, hence indexing and
+index-assigning a list / tuple / string with any range cannot panic -/
+theorem rangeIndices_fixed_total (fx : Fx) (hf : fx.range = true) (r : KRange) (m : Int) (hm : inLen m) :
+    ∃ a b, rangeIndicesG fx r m = .ok (a, b) ∧ 0 ≤ a ∧ a ≤ b ∧ b ≤ m := by
+  obtain ⟨s, e, hok, hle⟩ := asBoundedRange_fixed_total fx hf r
+  unfold rangeIndicesG; rw [hok]; simp only [bind_ok]
+  have hc : castI64 m = m := by unfold castI64; split <;> arith
+  rw [hc]
+  unfold clamp
+  have h0 : (0 : Int) ≤ m := by arith
+  simp only [h0, ite_true, bind_ok]
+  have h1 : max 0 (min s m) ≤ m := by omega
+  simp only [h1, ite_true, bind_ok]
+  exact ⟨_, _, rfl, by omega, by omega, by omega⟩
+
+theorem runIndexSeqRange_fixed_total (fx : Fx) (hf : fx.range = true) (len : Int) (hl : inLen len) (r : KRange) :
+    runIndexSeqRangeG fx len r ≠ .panic := by
+  obtain ⟨a, b, hok, h0, hab, hb⟩ := rangeIndices_fixed_total fx hf r len hl
+  unfold runIndexSeqRangeG; rw [hok]; simp [sliceRange, h0, hab, hb]
+
+theorem indexAssignListRange_fixed_total (fx : Fx) (hf : fx.range = true) (len : Int) (hl : inLen len) (r : KRange) :
+    indexAssignListRangeG fx len r ≠ .panic := by
+  obtain ⟨a, b, hok, h0, hab, hb⟩ := rangeIndices_fixed_total fx hf r len hl
+  unfold indexAssignListRangeG; rw [hok]; simp only [bind_ok]
+  split
+  · unfold sliceIndex
+    have : 0 ≤ b - 1 ∧ b - 1 < len := by omega
+    rw [if_pos this]; simp
+  · simp
+
+/-- fix-5 + fix-11: indexing any range with any number -/
+theorem runIndexRangeNum_fixed_total (fx : Fx) (hf : fx.range = true) (hs : fx.size = true) (ho : fx.openIndex = true)
+    (r : KRange) (n : NumView) : runIndexRangeNumG fx r n ≠ .panic := by
+  unfold runIndexRangeNumG
+  cases r.start with
+  | none => simp
+  | some s =>
+    simp only
+    cases hsz : rangeSizeG fx r with
+    | panic => exact absurd hsz (rangeSize_fixed_total fx hf hs r)
+    | err => simp
+    | ok sz =>
+      simp only [bind_ok]
+      cases hv : validateIndex n sz with
+      | panic => exact absurd hv (validateIndex_total n sz)
+      | err => simp
+      | ok i => simp [ho]
+
+/-- fix-1: `%=` never panics -/
+theorem runRemainderAssign_fixed_total (fx : Fx) (hf : fx.rem = true) (a b : Int) :
+    runRemainderAssignG fx a b ≠ .panic := by
+  unfold runRemainderAssignG
+  by_cases hb : b = 0
+  · simp [hf, hb]
+  · simp only [hb, and_false, ite_false]
+    unfold wrappingRem
+    simp only [hb, ite_false]
+    by_cases h1 : b = -1 <;> simp [h1, Res.map']
+
+/-- fix-2: the saturating size hint never panics, in any state -/
+theorem sizeHint_fixed_total (fx : Fx) (hf : fx.hint = true) (c : Cursor) : sizeHintG fx c ≠ .panic := by
+  unfold sizeHintG; simp [hf]
+
+/-- fix-6: shifts never panic (amounts `>= 64` are errors) -/
+theorem shiftLeft_fixed_total (fx : Fx) (hf : fx.shift = true) (a : Int) (b : NumView) :
+    shiftLeftG fx a b ≠ .panic := by
+  unfold shiftLeftG
+  split
+  · rename_i h; have := h.2 hf; simp [this]
+  · simp
+theorem shiftRight_fixed_total (fx : Fx) (hf : fx.shift = true) (a : Int) (b : NumView) :
+    shiftRightG fx a b ≠ .panic := by
+  unfold shiftRightG
+  split
+  · rename_i h; have := h.2 hf; simp [this]
+  · simp
+
+/-- fix-9, fix-10 -/
+theorem absInt_fixed_total (fx : Fx) (hf : fx.abs = true) (a : Int) : absIntG fx a ≠ .panic := by
+  unfold absIntG; simp [hf]
+theorem rangeExpanded_fixed_total (fx : Fx) (hf : fx.expanded = true) (s e n : Int) :
+    rangeExpandedG fx s e n ≠ .panic := by
+  unfold rangeExpandedG; simp [hf]
+
+example : asBoundedRangeG Fx.all ⟨some 0, some (9223372036854775807, true)⟩ = .ok (0, 9223372036854775807) := by decide
+example : runRemainderAssignG Fx.all 10 0 = .ok none := by decide
 
 end KotoVerif.C06
